@@ -89,6 +89,10 @@ def main(argv: list[str]) -> int:
         print(f"MACHINERY-FAILURE property={prop}: unexpected exception in the harness", flush=True)
         traceback.print_exc()
         return 2
+    finally:
+        import shutil
+
+        shutil.rmtree(ctx.work, ignore_errors=True)      # scratch files never outlive the run (also after a failure)
 
 
 if __name__ == "__main__":
